@@ -160,6 +160,10 @@ def build(case):
             A.encodings.get_or_insert(m)[B.blocks[d["_idx"]]] = d["encoding"]
     if case.get("entry") is not None:
         m.entry_point = B.blocks[case["entry"]]
+    if case.get("init") is not None:
+        A.elf_dynamic_init.set(m, B.blocks[case["init"]])
+    if case.get("fini") is not None:
+        A.elf_dynamic_fini.set(m, B.blocks[case["fini"]])
     B.flat = flat
     return B
 
@@ -438,6 +442,11 @@ def gen_case(rng, nblocks=None, with_data=True, with_funcs=True, nedits=None, cf
             d["entry"] = True
     case = {"isa": "X64", "ff": "ELF", "text": text, "externs": externs}
     case["edits"] = gen_edits(rng, case, nedits)
+    # module entry point, DT_INIT and DT_FINI on code blocks
+    code_idx = [i for i, d in enumerate(text) if d["kind"] == "code"]
+    for key, p in (("entry", 0.25), ("init", 0.2), ("fini", 0.2)):
+        if code_idx and rng.random() < p:
+            case[key] = rng.choice(code_idx)
     if cfg_domain:
         # C03: keep the module inside "CFG consistent with the code": drop requests that would
         # leave code running off into data / the end of the section
